@@ -170,8 +170,8 @@ def _mk_susp(n, is_map, tol):
         pre: 0 <= c0 < 3 and 0 <= c1 < 3 and 0 <= c2 < 3
         post: True
         """
-        if not h.THOROUGH and (c2 != 0 or d1 != 0):
-            return
+        if (not h.THOROUGH or n == 3) and (c2 != 0 or d1 != 0):
+            return     # 3 branches: 216 behaviour triples x 2 timer orders x 9 schedules already take ~15 min; the third choice point stays at its default
         susp_check(n, is_map, tol, [b0, b1, b2][:n], d0, d1, [c0, c1, c2])
 
     lem.__name__ = lem.__qualname__ = f"executor_suspension_{n}_{'map' if is_map else 'parallel'}_{'tolerant' if tol else 'failfast'}"
@@ -179,7 +179,7 @@ def _mk_susp(n, is_map, tol):
     return h.lemma(timeout=600, thorough_timeout=2400, funcs=XFUNCS, reach=reach, tier="quick" if (n <= 2 and not is_map) else "thorough",
                    bounds=f"{n} branches of a {'map' if is_map else 'parallel'}, each: succeeds / fails / parks on a callback / parks until now+d (d from {5,7,9}: both orders of two timers) / "
                           "parks then succeeds when resumed / never finishes; failures " + ("tolerated" if tol else "fail-fast") + "; completion order and timer activity solver-chosen at "
-                          "the first two (three in thorough) scheduling points; <= 40 scheduling actions")(lem)
+                          "the first two (three in thorough, for <= 2 branches) scheduling points; <= 40 scheduling actions")(lem)
 
 
 for _n, _m in ((1, False), (2, False), (2, True), (3, False)):
